@@ -11,6 +11,7 @@ Line protocol of the C20 model (one s-expression in, one out).
 
   (vcs COM PRE POST)        -> (ok ACOM (E ...) (STR ...))   annotated command, VCs, printed VCs
   (pp E)                    -> STR
+  (lexpp E)                 -> T | F        does `lex (pp E)` equal `toks E`
   (ppcom COM)               -> (STR ...)                      lines of print_com
   (parsecond STR)           -> (ok E) | err
   (parsecom STR)            -> (ok COM) | err
@@ -136,6 +137,10 @@ def handle (line : String) : String :=
   | some (.list [.atom "pp", e]) =>
     match exprOf e with
     | some e => enc (pp e)
+    | none => "bad-op"
+  | some (.list [.atom "lexpp", e]) =>
+    match exprOf e with
+    | some e => toString (Sexp.ofBool (lex (pp e) == some (toks e)))
     | none => "bad-op"
   | some (.list [.atom "ppcom", c]) =>
     match comOf c with
